@@ -123,6 +123,61 @@ def translate_float_site(site):
         return text, f'fallback: {e}'
 
 
+PULSEQ_GLUE = {  # statements of KTrajectoryPulseq.__call__ that the model of the whole rescaling relies on, as source text
+    'k_max_all_directions': 'torch.max(torch.abs(k_traj_adc))',
+    'kx': 'reshape_pulseq_traj(k_traj_adc[0], kheader.encoding_matrix.x)',
+    'ky': 'reshape_pulseq_traj(k_traj_adc[1], kheader.encoding_matrix.y)',
+    'kz': 'reshape_pulseq_traj(k_traj_adc[2], kheader.encoding_matrix.z)',
+}
+SITE_PROPS['pulseq_scale'] = 'C14'
+
+
+def translate_pulseq():
+    """`KTrajectoryPulseq.__call__`: the scale factor of a direction (an expression over a field), the threshold of the
+    `not encoded` guard (an exact decimal) and the statements that say WHICH extent and WHICH encoding size go in"""
+    from fractions import Fraction
+
+    file = 'data/traj_calculators/KTrajectoryPulseq.py'
+    try:
+        tree = ast.parse((SRC / file).read_text())
+        call = _find(tree, 'KTrajectoryPulseq', '__call__')
+        inner = _find(call, None, 'reshape_pulseq_traj')
+        if [a.arg for a in inner.args.args] != ['k_traj', 'encoding_size']:
+            raise py2lean.Untranslatable('parameters of reshape_pulseq_traj')
+        body = [st for st in inner.body if not (isinstance(st, ast.Expr) and isinstance(st.value, ast.Constant))]
+        if len(body) != 3 or not isinstance(body[1], ast.If) or not isinstance(body[2], ast.Return):
+            raise py2lean.Untranslatable('shape of reshape_pulseq_traj')
+        if ast.unparse(body[0]) != 'k_max = torch.max(torch.abs(k_traj))':
+            raise py2lean.Untranslatable('k_max is not the extent of the direction itself')
+        if ast.unparse(body[2].value) != "rearrange(k_traj, '(other k0) -> other k0', k0=n_k0)":
+            raise py2lean.Untranslatable('reshape of the scaled positions')
+        test = body[1].test
+        if not (isinstance(test, ast.Compare) and len(test.ops) == 1 and isinstance(test.ops[0], ast.Gt) and ast.unparse(test.left) == 'k_max'
+                and isinstance(test.comparators[0], ast.BinOp) and isinstance(test.comparators[0].op, ast.Mult)
+                and isinstance(test.comparators[0].left, ast.Constant) and ast.unparse(test.comparators[0].right) == 'k_max_all_directions'):
+            raise py2lean.Untranslatable('guard of the rescaling')
+        thr = Fraction(repr(test.comparators[0].left.value))
+        then, other = body[1].body, body[1].orelse
+        if not (len(then) == 1 and isinstance(then[0], ast.Assign) and ast.unparse(then[0].targets[0]) == 'k_traj'):
+            raise py2lean.Untranslatable('then-branch of the rescaling')
+        if not (len(other) == 1 and ast.unparse(other[0]) == 'k_traj = torch.zeros_like(k_traj)'):
+            raise py2lean.Untranslatable('else-branch of the rescaling')
+        e = py2lean.fexpr(then[0].value, py2lean.Ctx(['k_traj', 'encoding_size', 'k_max', 'k_max_all_directions']), set()).replace(' : K)', ' : Rat)')
+        stmts = {ast.unparse(st.targets[0]): ast.unparse(st.value) for st in call.body if isinstance(st, ast.Assign) and len(st.targets) == 1}
+        for k, v in PULSEQ_GLUE.items():
+            if stmts.get(k) != v:
+                raise py2lean.Untranslatable(f'{k} = {stmts.get(k)}')
+        text = (f'/-- translated from `{file}:reshape_pulseq_traj (line {inner.lineno})` -/\n'
+                f'def pulseq_scale (k_traj encoding_size k_max k_max_all_directions : Rat) : Rat :=\n  {e}\n'
+                f'def pulseq_threshold : Rat := ({thr.numerator} : Rat) / {thr.denominator}\ndef pulseq_scale_translated : Bool := true')
+        return text, 'translated'
+    except (py2lean.Untranslatable, OSError, SyntaxError, ValueError) as e:
+        text = (f'/-- FALLBACK (source outside the translatable fragment: {str(e)[:100]}): the hand-written model -/\n'
+                'def pulseq_scale (k_traj encoding_size k_max k_max_all_directions : Rat) : Rat :=\n  M.pulseqScale k_traj encoding_size k_max\n'
+                'def pulseq_threshold : Rat := M.pulseqThreshold\ndef pulseq_scale_translated : Bool := false')
+        return text, f'fallback: {e}'
+
+
 def _find(tree, cls, func):
     scope = tree
     if cls is not None:
@@ -167,7 +222,7 @@ def translate_site(site):
 
 def generate():
     out = ['import Mrpro.Model.Index', 'import Mrpro.Model.Ops', 'import Mrpro.Model.KDataOps',
-           'import Mrpro.Model.SrcModel', 'import Mrpro.Model.Signal', '',
+           'import Mrpro.Model.SrcModel', 'import Mrpro.Model.Signal', 'import Mrpro.Model.Load', '',
            '/-! GENERATED by harness/translate_src.py from /repo/src on every check run. Do not edit. -/', '',
            'namespace M.Src', '']
     status = {}
@@ -175,6 +230,9 @@ def generate():
         text, st = translate_site(site)
         out += [text, '']
         status[site['name']] = st
+    text, st = translate_pulseq()
+    out += [text, '']
+    status['pulseq_scale'] = st
     out += ['/-! closed-form signal models, element-wise -/', 'section Signal',
             'variable {K : Type} [Add K] [Sub K] [Mul K] [Div K] [Neg K] [OfNat K 0] [OfNat K 1] [OfNat K 2] [M.Transc K]', 'open M', '']
     for site in FLOAT_SITES:
